@@ -75,18 +75,32 @@ fn vio(acc: &mut Acc, p: &Pos, s: &str, what: String) {
 /// (b) the complete move-shape alphabet against the real `position` command in one state
 pub fn alphabet_in_state(p: &Pos, strings: &[String], acc: &mut Acc) {
     // small batches keep each session's transcript small (allocator-friendly under 16 threads)
+    let prefix = format!("position fen {} moves", p.fen6(false));
     for chunk in strings.chunks(512) {
-        alphabet_batch(p, chunk, acc);
+        alphabet_batch(p, &prefix, chunk, acc);
     }
 }
 
-fn alphabet_batch(p: &Pos, strings: &[String], acc: &mut Acc) {
+/// the same, with the state given as `position startpos moves <path>` (the other branch of the position command)
+pub fn alphabet_after_startpos(path: &[String], strings: &[String], acc: &mut Acc) {
+    let mut p = Pos::startpos();
+    for t in path {
+        let Some(m) = p.legal().into_iter().find(|m| &m.uci() == t) else { return };
+        p = p.apply(&m).normalised();
+    }
+    let prefix = if path.is_empty() { "position startpos moves".to_string() } else { format!("position startpos moves {}", path.join(" ")) };
+    for chunk in strings.chunks(512) {
+        alphabet_batch(&p, &prefix, chunk, acc);
+    }
+}
+
+fn alphabet_batch(p: &Pos, prefix: &str, strings: &[String], acc: &mut Acc) {
     let legal = p.legal();
     let fen = p.fen6(false);
     let base4 = p.fen4(false);
     let mut script = Vec::with_capacity(strings.len() * 3 + 1);
     for s in strings {
-        script.push(format!("position fen {} moves {}", fen, s));
+        script.push(format!("{} {}", prefix, s));
         script.push("show".to_string());
         script.push("isready".to_string());
     }
@@ -96,7 +110,7 @@ fn alphabet_batch(p: &Pos, strings: &[String], acc: &mut Acc) {
             // find the offending string by bisection-free fallback: run them one by one
             let mut blamed = false;
             for s in strings {
-                if let Err(e1) = uci_seq(vec![format!("position fen {} moves {}", fen, s), "show".into()]) {
+                if let Err(e1) = uci_seq(vec![format!("{} {}", prefix, s), "show".into()]) {
                     vio(acc, p, s, format!("the session died: {}", e1));
                     blamed = true;
                     break;
@@ -277,7 +291,7 @@ pub fn sequences_in_state(p: &Pos, acc: &mut Acc) {
 pub fn run(tier: &str, seed: i64) -> Outcome {
     let off = seed.unsigned_abs();
     // (a)
-    let spaces_a = core_spaces(tier, seed, false);
+    let spaces_a = core_spaces(tier, seed, true);
     let (mut acc, mut reports) = run_spaces(&spaces_a, &roundtrip_visit);
     acc.add("(a) legal moves round-tripped through text", acc.transitions);
     // (b)
@@ -311,6 +325,16 @@ pub fn run(tier: &str, seed: i64) -> Outcome {
             acc.sample(json::obj(vec![("state", json::s(p.fen6(false))), ("strings", json::s("all 64x64 from/to pairs x {'',q,r,b,n,k,p} through `position fen <state> moves <s>`; `show`; `isready`")), ("legal", json::strs(&p.legal_uci_sorted()))]));
         }
     });
+    // the `position startpos moves ...` branch: the start position itself and every position one ply from it
+    let mut paths: Vec<Vec<String>> = vec![vec![]];
+    for m in Pos::startpos().legal() {
+        paths.push(vec![m.uci()]);
+    }
+    let acc_sp = par_items(&paths, &|_, path, acc| {
+        acc.count("(b) states given as `position startpos moves ...` with the complete alphabet");
+        alphabet_after_startpos(path, &strings, acc);
+    });
+    acc.merge(acc_sp);
     let acc_s = par_items(&states, &|i, (p, _), acc| {
         if i % 4 == 0 {
             acc.count("(c) states with good/bad sequences");
